@@ -18,7 +18,7 @@ BIG_EXTENTS = [255, 256, 257, 65535, 65536, 65537]
 # independent index constructor / reader
 
 
-def build_index(dense, common, readonly=False):
+def build_index(dense, common, readonly=False, reverse=False):
     """Independent constructor of an iindex from a dense array (any ndim >= 1).
 
     readonly=True makes the row-id arrays read-only, like the mmap-backed arrays IndxIO.load returns."""
@@ -43,6 +43,9 @@ def build_index(dense, common, readonly=False):
             elif readonly:
                 arr.setflags(write=False)
             entries[(int(v),) + hi] = arr
+    if reverse:
+        # dict insertion order is not part of an index's value: hand the entries over in reverse order
+        entries = dict(reversed(list(entries.items())))
     return iindex(entries, int(common) if not isinstance(common, str) else common,
                   tuple(int(x) for x in dense.shape))
 
@@ -115,7 +118,8 @@ def cube_specs(draw, max_nd=3, min_nd=0, max_n=40, tails=((), (), (2,), (3,), (1
     mode = draw(st.sampled_from(["inferred", "exact", "padded"]))
     pads = draw(st.lists(st.integers(1, 3), min_size=nd, max_size=nd))
     return {"N": N, "dims": dims, "shape_mode": mode, "pads": pads,
-            "readonly": draw(st.sampled_from([False, False, False, True, "strided"]))}
+            "readonly": draw(st.sampled_from([False, False, False, True, "strided"])),
+            "reverse": draw(st.booleans())}
 
 
 def fact_specs(N, dtypes=("float", "int"), max_k=3, dyadic=True):
@@ -180,7 +184,7 @@ def weight_specs(N, scalar_ok=True, zero_ok=True, kinds=("none", "scalar", "arra
 
 
 RMAS = ["nan", ["tuple", 0], ["tuple", -1], ["tuple", 99.5], "plain"]
-INT_DTYPES = ["int8", "int16", "int32", "int64", "uint8", "uint16", "uint32", "uint64"]
+INT_DTYPES = ["int8", "int16", "int32", "int64", "uint8", "uint16", "uint32", "uint64", "bool"]
 
 
 # --------------------------------------------------------------------------- #
@@ -430,7 +434,8 @@ def make_ccube(case, dense=None, commons=None):
     dense = dense_dims(case) if dense is None else dense
     commons = [d["common"] for d in case["dims"]] if commons is None else commons
     shape_arg, _ = cube_shape(case, dense)
-    idxs = [build_index(a, c, readonly=case.get("readonly", False)) for a, c in zip(dense, commons)]
+    idxs = [build_index(a, c, readonly=case.get("readonly", False), reverse=bool(case.get("reverse")))
+            for a, c in zip(dense, commons)]
     return ccube(idxs, shape_arg), idxs
 
 
@@ -448,9 +453,12 @@ def make_xcube(case, dense=None, dtypes=None, force_explicit=False):
     arrs = []
     for i, a in enumerate(dense):
         dt = (dtypes or [])[i] if dtypes and i < len(dtypes) else "int64"
-        info = numpy.iinfo(dt)
-        if a.size and int(a.max()) > info.max:
-            dt = "int64"
+        if dt == "bool":
+            dt = "bool" if (not a.size or int(a.max()) <= 1) else "uint8"
+        if dt != "bool":
+            info = numpy.iinfo(dt)
+            if a.size and int(a.max()) > info.max:
+                dt = "int64"
         arrs.append(a.astype(dt))
     if shape_arg is None:
         used = tuple(int(a.max()) + 1 for a in dense)
